@@ -190,18 +190,21 @@ func TestVerifC07_ProcFilter(t *testing.T) {
 func TestVerifC07_ProcInteractive(t *testing.T) {
 	rapid.Check(t, func(t *rapid.T) {
 		n := rapid.SampledFrom([]int{0, 1, 2, 6, 15}).Draw(t, "n")
-		words := []string{"alpha,x 1", " beta,y  2 ", "a b,z,w", "ab,,c", "é漢,q", "tail,", ",lead", "one", "b a,b a", "last,item 9"}
+		words := []string{"ab,,c", "x>,y=", " beta,y  2 ", "e:,,:f", "alpha,x 1", "a b,z,w", "é漢,q", "tail,", ",lead", "one", "b a,b a", "last,item 9"}
+		// the delimiter is a literal string of one or two characters; the lines also
+		// contain its characters on their own
+		fieldSep := rapid.SampledFrom([]string{",", ",", "=>", "::"}).Draw(t, "fieldSep")
 		lines := make([]string, n)
 		for i := range lines {
-			lines[i] = fmt.Sprintf("%s#%d", words[i%len(words)], i)
+			lines[i] = fmt.Sprintf("%s#%d", strings.ReplaceAll(words[i%len(words)], ",", fieldSep), i)
 		}
 		print0 := rapid.Bool().Draw(t, "print0")
 		printQuery := rapid.Bool().Draw(t, "printQuery")
 		expect := rapid.SampledFrom([]string{"", "", "ctrl-x", "f5,alt-k"}).Draw(t, "expect")
-		acceptNth := rapid.SampledFrom([]string{"", "", "1", "2", "-1", "2.."}).Draw(t, "acceptNth")
+		acceptNth := rapid.SampledFrom([]string{"", "", "1", "2", "-1", "2..", "1..2", "..2", "2,1"}).Draw(t, "acceptNth")
 		multi := rapid.Bool().Draw(t, "multi")
 		initQuery := rapid.SampledFrom([]string{"", "", "a", "zzzz"}).Draw(t, "query")
-		args := []string{"--no-sort", "--no-mouse", "--delimiter", ","}
+		args := []string{"--no-sort", "--no-mouse", "--delimiter", fieldSep}
 		outsep := "\n"
 		if print0 {
 			args = append(args, "--print0")
@@ -307,9 +310,14 @@ func TestVerifC07_ProcInteractive(t *testing.T) {
 			if acceptNth == "" {
 				return l
 			}
-			r, _ := oracle.ParseFieldRange(acceptNth)
-			txt, _, _ := oracle.Select(oracle.Split(l, oracle.Delim{Kind: oracle.DelimStr, Str: ","}), r)
-			return oracle.StripLastDelim(txt, oracle.Delim{Kind: oracle.DelimStr, Str: ","})
+			d := oracle.Delim{Kind: oracle.DelimStr, Str: fieldSep}
+			var sb strings.Builder
+			for _, e := range strings.Split(acceptNth, ",") {
+				r, _ := oracle.ParseFieldRange(e)
+				txt, _, _ := oracle.Select(oracle.Split(l, d), r)
+				sb.WriteString(txt)
+			}
+			return oracle.StripLastDelim(sb.String(), d)
 		}
 		got := string(s.Stdout())
 		var wantPrefix string
